@@ -74,6 +74,16 @@ impl Future for Via {
     }
 }
 
+/// The world drops a caller by dropping its `Via`: the call's own future, which the slot keeps
+/// reachable for hooks, goes with it (taken out first, dropped outside the slot's lock - its
+/// Drop may fire a hook itself).
+impl Drop for Via {
+    fn drop(&mut self) {
+        let f = self.slot.lock().ok().and_then(|mut s| s.fut.take());
+        drop(f);
+    }
+}
+
 impl Nest {
     pub fn new() -> Arc<Nest> {
         Arc::new(Nest::default())
